@@ -115,12 +115,40 @@ package table
 //@   requires t != nil
 //@   ensures  fresh(result) && result.prefix == prefix && typeis(result.underlying, "*Table") && unbox(result.underlying, "*Table") == t
 //@
-//@ // incPrefix goes through math/big; its contract is checked by a bounded stand-in
-//@ // (/verif/bounded/incprefix_test.go), not proved: it is TRUSTED in the proof of Compact.
-//@ trusted func incPrefix
-//@   ensures isnil(result) || len(result) == len(prefix)
+//@ // ---- incPrefix (through math/big, trusted model in contracts/trusted/mathbig.contracts) ----
+//@ spec opaque pow256(n int) int = ite(n <= 0, 1, 256 * pow256(n - 1))
+//@ lemma pow_pos(n int) by induction(n) { unfold pow256(n) }
+//@   ensures  pow256(n) >= 1
+//@ lemma pow_mono(m int, n int) by induction(n) { unfold pow256(n); unfold pow256(m); use pow_pos(m); use pow_pos(n - 1) }
+//@   requires m <= n
+//@   ensures  pow256(m) <= pow256(n)
+//@ lemma beval_lt(b []byte, n int) by induction(n) { unfold pow256(n) }
+//@   requires 0 <= n && n <= len(b)
+//@   ensures  0 <= beval(b, n) && beval(b, n) < pow256(n)
+//@ lemma beval_ge(b []byte, n int) by induction(n) { unfold pow256(n - 1); unfold pow256(0) }
+//@   requires 1 <= n && n <= len(b) && b[0] != 0
+//@   ensures  beval(b, n) >= pow256(n - 1)
+//@ lemma beval_zero(r []byte, m int) by induction(m)
+//@   requires 0 <= m && m <= len(r) && forall(j, 0, m, r[j] == 0)
+//@   ensures  beval(r, m) == 0
+//@ lemma beval_pad(r []byte, b []byte, m int, n int) by induction(n) { use beval_zero(r, m) }
+//@   requires 0 <= m && 0 <= n && m + n <= len(r) && n <= len(b) && forall(j, 0, m, r[j] == 0) && forall(j, 0, n, r[m + j] == b[j])
+//@   ensures  beval(r, m + n) == beval(b, n)
+//@ // incPrefix returns nil exactly for the empty prefix and for prefixes whose increment does not fit (all bytes 0xff);
+//@ // otherwise a fresh slice of the same length whose big-endian value is the prefix's value plus one.
+//@ // The argument is not modified (no modifies clause).
+//@ func incPrefix
+//@   requires common.Big1 != nil && bigv[common.Big1] == 1
+//@   hint use beval_lt(prefix, len(prefix)); use beval_lt(resultof("Bytes", 1), len(resultof("Bytes", 1))); use beval_ge(resultof("Bytes", 1), len(resultof("Bytes", 1)))
+//@   hint use pow_mono(len(resultof("Bytes", 1)), len(prefix)); use pow_mono(len(prefix), len(resultof("Bytes", 1)) - 1)
+//@   hint assert len(resultof("Bytes", 3)) == len(resultof("Bytes", 1)) && len(result) == len(prefix)
+//@   hint assert forall(j, 0, len(prefix) - len(resultof("Bytes", 3)), result[j] == 0)
+//@   hint assert forall(j, 0, len(resultof("Bytes", 3)), result[len(prefix) - len(resultof("Bytes", 3)) + j] == resultof("Bytes", 3)[j])
+//@   hint use beval_pad(result, resultof("Bytes", 3), len(prefix) - len(resultof("Bytes", 3)), len(resultof("Bytes", 3)))
+//@   ensures  [nil] isnil(result) == (len(prefix) == 0 || beval(prefix, len(prefix)) + 1 >= pow256(len(prefix)))
+//@   ensures  [value] !isnil(result) ==> fresh(result) && len(result) == len(prefix) && beval(result, len(result)) == beval(prefix, len(prefix)) + 1
 //@ func (*Table).Compact
-//@   requires tbl(t) && len(start) <= 1000000000 && len(limit) <= 1000000000
+//@   requires tbl(t) && len(start) <= 1000000000 && len(limit) <= 1000000000 && common.Big1 != nil && bigv[common.Big1] == 1
 //@   modifies gCompacterCompactN, gCompacterCompactRecv, gCompacterCompactA0, gCompacterCompactA1, gCompacterCompactR0
 //@   ensures  gCompacterCompactN == old(gCompacterCompactN) + 1 && gCompacterCompactRecv == t.underlying && result == gCompacterCompactR0
 //@   ensures  isCat(gCompacterCompactA0, t.prefix, start)
